@@ -194,7 +194,8 @@ fn scenarios(thorough: bool) -> Vec<Sc> {
                 }
             }
         }
-        for closer in [Closer::Stop(Some("because")), Closer::Stop(None), Closer::Drain, Closer::Kill] {
+        // (a graceful stop whose reason happens to read "killed" is still a graceful stop)
+        for closer in [Closer::Stop(Some("because")), Closer::Stop(None), Closer::Drain, Closer::Kill, Closer::Stop(Some("killed"))] {
             v.push(base(kind, Variant::Linked, Site::Handle, P::Awaits, closer.clone()));
             if thorough {
                 let mut s = base(kind, Variant::LinkedInstant, Site::Handle, P::SleepsMs, closer.clone());
